@@ -886,6 +886,15 @@ impl Kademlia {
                 let key = record.key.clone();
                 let message: Bytes = KademliaMessage::put_value(record);
 
+                // Start tracking before sending the requests, so the failures to open a
+                // substream/dial the peer can be reported to the query right away.
+                self.engine.start_put_record_to_found_nodes_requests_tracking(
+                    query,
+                    key.clone(),
+                    peers.iter().map(|peer| peer.peer).collect(),
+                    quorum,
+                );
+
                 for peer in &peers {
                     if let Err(error) = self.open_substream_or_dial(
                         peer.peer,
@@ -900,15 +909,12 @@ impl Kademlia {
                             ?error,
                             "failed to put record to peer",
                         );
+
+                        // Nothing is in flight for the peer, announce the error to the query
+                        // engine so the query doesn't wait for the peer forever.
+                        self.engine.register_send_failure(query, peer.peer);
                     }
                 }
-
-                self.engine.start_put_record_to_found_nodes_requests_tracking(
-                    query,
-                    key,
-                    peers.into_iter().map(|peer| peer.peer).collect(),
-                    quorum,
-                );
 
                 Ok(())
             }
@@ -940,6 +946,15 @@ impl Kademlia {
 
                 let message = KademliaMessage::add_provider(provided_key.clone(), provider);
 
+                // Start tracking before sending the requests, so the failures to open a
+                // substream/dial the peer can be reported to the query right away.
+                self.engine.start_add_provider_to_found_nodes_requests_tracking(
+                    query,
+                    provided_key.clone(),
+                    peers.iter().map(|peer| peer.peer).collect(),
+                    quorum,
+                );
+
                 for peer in &peers {
                     if let Err(error) = self.open_substream_or_dial(
                         peer.peer,
@@ -952,16 +967,13 @@ impl Kademlia {
                             ?provided_key,
                             ?error,
                             "failed to add provider record to peer",
-                        )
+                        );
+
+                        // Nothing is in flight for the peer, announce the error to the query
+                        // engine so the query doesn't wait for the peer forever.
+                        self.engine.register_send_failure(query, peer.peer);
                     }
                 }
-
-                self.engine.start_add_provider_to_found_nodes_requests_tracking(
-                    query,
-                    provided_key,
-                    peers.into_iter().map(|peer| peer.peer).collect(),
-                    quorum,
-                );
 
                 Ok(())
             }
